@@ -4,14 +4,15 @@
 P=$1; W=/tmp/seed_$P; cd $W || exit 3
 demo=derive-ex-tests/tests/seed_$P.rs
 [ -f SEED/patch.diff ] || { echo "no patch"; exit 3; }
+git checkout -q -- derive-ex/src; git apply SEED/patch.diff || { echo "$P: SEED/patch.diff does not apply to HEAD"; exit 3; }
 mkdir -p /tmp/seedhold; [ -f $demo ] && mv $demo /tmp/seedhold/seed_$P.rs
 suite=$(cargo test --workspace --no-fail-fast --offline 2>&1 | awk '/^test result/ {p+=$4; f+=$6} END {print "passed=" p " failed=" f}')
 [ -f /tmp/seedhold/seed_$P.rs ] && mv /tmp/seedhold/seed_$P.rs $demo
 if [ -f $demo ]; then
   cargo test --offline -p derive-ex-tests --test seed_$P >/tmp/seedhold/$P.with 2>&1; with=$?
-  git stash push -q -- derive-ex/src; cargo test --offline -p derive-ex-tests --test seed_$P >/tmp/seedhold/$P.without 2>&1; without=$?; git stash pop -q
+  git diff -- derive-ex/src > /tmp/seedhold/$P.cur.diff; git checkout -q -- derive-ex/src; cargo test --offline -p derive-ex-tests --test seed_$P >/tmp/seedhold/$P.without 2>&1; without=$?; git apply /tmp/seedhold/$P.cur.diff
 else
   bash seed_demo/run.sh >/tmp/seedhold/$P.with 2>&1; with=$?
-  git stash push -q -- derive-ex/src; bash seed_demo/run.sh >/tmp/seedhold/$P.without 2>&1; without=$?; git stash pop -q
+  git diff -- derive-ex/src > /tmp/seedhold/$P.cur.diff; git checkout -q -- derive-ex/src; bash seed_demo/run.sh >/tmp/seedhold/$P.without 2>&1; without=$?; git apply /tmp/seedhold/$P.cur.diff
 fi
 echo "$P suite-with-change: $suite ; demo with change rc=$with (must be !=0) ; without rc=$without (must be 0)"
